@@ -121,6 +121,10 @@ func zzNewC05World(state0 int) *zzC05World {
 			}
 			w.scripts = append(w.scripts, ts)
 			w.taproot = ts
+			// read it once while unlocked (whatever the accessor keeps from
+			// this call must not be served after Lock)
+			tsc, err := ts.TaprootScript()
+			verifrt.Assert(err == nil && tsc != nil && tsc.Type == TaprootFullKeyOnly, "c05-setup-taproot-script-readable-unlocked")
 			verifrt.Reach("taproot-script-imported")
 			return nil
 		}))
@@ -204,6 +208,14 @@ func (w *zzC05World) wiped(label string) {
 			}
 		}
 		verifrt.Observe("address-kind", "")
+		// the address objects the manager itself handed out (issued or
+		// imported; not the caller-owned results of DeriveFromKeyPath) are
+		// its own objects: wiped too, whether or not it still indexes them
+		for _, pa := range w.pubAddr {
+			if a, ok := pa.(*managedAddress); ok {
+				verifrt.Assert(zzAllZero(a.privKeyCT), label+"-handed-out-address-private-key-zeroed")
+			}
+		}
 		for _, kp := range w.cached {
 			ck, err := sm.privKeyCache.Get(kp)
 			if err == nil && ck != nil {
